@@ -155,6 +155,10 @@ def mask_query(tier: str, prop: str) -> list[dict]:
         dict(d, policy="mlp_ac", kind="multidiscrete", dims=[2, 2], K=2048, L=4),
         dict(d, policy="table_ac", kind="multibinary", dims=[2], K=2048, L=4),
         dict(d, policy="table_ac", kind="discrete", dims=[3], K=2048, L=4),
+        # non-default (documented) network depths: the mask must be applied whatever the head looks like
+        dict(d, policy="mlp_ac", kind="discrete", dims=[3], K=32, L=8, mlp_kwargs={"action_depth": 1}),
+        dict(d, policy="mlp_ac", kind="multibinary", dims=[2], K=32, L=8, mlp_kwargs={"action_depth": 1, "value_depth": 1, "feature_depth": 1}),
+        dict(d, policy="mlp_ac", kind="multidiscrete", dims=[2, 2], K=32, L=8, mlp_kwargs={"action_depth": 3, "feature_depth": 1}),
         # laws built from probabilities (`probs=`) instead of logits: masking must work for both parameterisations
         dict(d, policy="table_ac", kind="multibinary", dims=[3], K=32, L=10, use_probs=True),
         dict(d, policy="table_ac", kind="discrete", dims=[4], K=32, L=10, use_probs=True),
@@ -300,7 +304,7 @@ def peers(tier: str, prop: str) -> list[dict]:
 def rollout(tier: str, prop: str) -> list[dict]:
     TL = ["TimeLimit", 60]
     classic = [
-        dict(env="CartPole", L=400, eager=True),
+        dict(env="CartPole", L=700, eager=True),   # long enough for the cruise controller to reach twice the track limit
         dict(env="CartPole", L=300, kwargs={"tsit5": True}, stack=[["TimeLimit", 25]]),
         dict(env="MountainCar", L=900, stack=[["TimeLimit", 300]]),
         dict(env="ContinuousMountainCar", L=900, stack=[["TimeLimit", 400], ["RescaleAction", -2.0, 2.0]], eager=True),
